@@ -251,8 +251,3 @@ def run(ctx):
 def search(ctx):
     return run(ctx)
 
-
-def replay(ctx, path):
-    import json
-    print(open(path).read()[:4000])
-    return 0
